@@ -1,4 +1,4 @@
-(* scratch: step-level model of rculfhash add / lookup / del on a fixed-size table (no resize) *)
+(* step-level model of rculfhash add / add_unique / lookup / del / replace on a fixed-size table (no resize) *)
 From Coq Require Import List Arith NArith Bool Lia.
 Import ListNotations.
 Require Import Urcu.Base.MachD.
@@ -27,7 +27,8 @@ Record cfg := { rh : N -> N;        (* reverse hash of node id *)
 Inductive hop :=
 | OAdd (node hash : N) (unique : bool)
 | OLookup (hash rhash k : N)
-| ODelFound.
+| ODelFound
+| OReplaceFound (new : N).        (* cds_lfht_replace of the node found by the last lookup (through its iterator: node and saved next word) *)
 
 Inductive hpc :=
 | H_Idle
@@ -44,9 +45,13 @@ Inductive hpc :=
 (* del *)
 | D_Size (node : N) | D_Load (node sz : N) | D_Or (node sz : N)
 | G_Start (node b : N) | G_Iter (node b prev iter : N) | G_Cas (node b prev iter next : N)
-| D_Assert (node : N) | D_Load2 (node : N) | D_Xchg (node v : N) | D_Ret (r : N).
+| D_Assert (node : N) | D_Load2 (node : N) | D_Xchg (node v : N) | D_Ret (r : N)
+(* replace: old node, new node, expected next word of old *)
+| R_Size (old new onext : N) | R_Cas (old new onext sz : N)
+| RG_Start (new b old : N) | RG_Iter (new b old prev iter : N) | RG_Cas (new b old prev iter next : N)
+| R_Assert (old : N) | R_Ret (r : N).
 
-Record hst := { hcur : hpc; htodo : list hop; found : N }.
+Record hst := { hcur : hpc; htodo : list hop; found : N; fnext : N }.      (* found / fnext : the iterator left by the last lookup (node, next word read from it) *)
 
 Section CFG.
 Variable C : cfg.
@@ -58,6 +63,7 @@ Definition hact (s : hst) : act hloc :=
               | OAdd node _ _ :: _ => ACall _ 0%nat node
               | OLookup h _ k :: _ => ACall _ 1%nat k
               | ODelFound :: _ => ACall _ 2%nat (found s)
+              | OReplaceFound _ :: _ => ACall _ 3%nat (found s)
               end
   | L_Size _ _ _ => ALoad _ HSize
   | L_Bucket b _ _ => ALoad _ (HNext b)
@@ -82,6 +88,13 @@ Definition hact (s : hst) : act hloc :=
   | D_Load2 node => ALoad _ (HNext node)
   | D_Xchg node v => AXchg _ (HNext node) (N.lor v OWNER)
   | D_Ret r => ARet _ 2%nat r
+  | R_Size _ _ _ => ALoad _ HSize
+  | R_Cas old new onext _ => ACas _ (HNext old) onext (mkp new (REMOVED + OWNER))
+  | RG_Start _ b _ => ALoad _ (HNext b)
+  | RG_Iter _ _ _ _ iter => ALoad _ (HNext (ptr iter))
+  | RG_Cas _ _ _ prev iter next => ACas _ (HNext prev) iter (if is_bucket iter then clr next + BUCKET else clr next)
+  | R_Assert old => ALoad _ (HNext old)
+  | R_Ret r => ARet _ 3%nat r
   end.
 
 (* decide what the add loop does after loading iter (no memory access): either go to insert, or load next *)
@@ -100,6 +113,22 @@ Definition lookup_at (node rhash k : N) : hpc :=
   else if rhash <? rh C node then L_Ret 0
   else L_Node node rhash k.
 
+Definition rgc_at (new b old prev iter : N) : hpc :=
+  if is_end iter then R_Assert old
+  else if rh C new <? rh C (ptr iter) then R_Assert old
+  else RG_Iter new b old prev iter.
+
+(* the head of the retry loop of _cds_lfht_replace: fail if the expected word says old is already removed, else (after the plain store
+   new->next = onext, see hpost) go to the cmpxchg *)
+Definition repl_at (old new onext sz : N) : hpc := if is_removed onext then R_Ret 2 else R_Cas old new onext sz.
+
+(* cds_lfht_replace before any memory access: no node, or a node with another hash / key *)
+Definition repl_start (old new onext : N) : hpc :=
+  if old =? 0 then R_Ret 2
+  else if negb (rh C old =? rh C new) then R_Ret 3
+  else if negb (key C old =? key C new) then R_Ret 3
+  else R_Size old new onext.
+
 (* next_duplicate scan started from pointer word cur, for key of node *)
 Definition dup_at (node b : N) (u : bool) (prev iter cur : N) : hpc :=
   if is_end cur then A_Cas node b u prev iter
@@ -107,13 +136,14 @@ Definition dup_at (node b : N) (u : bool) (prev iter cur : N) : hpc :=
   else A_Dup node b u prev iter cur.
 
 Definition hnext (s : hst) (r : N) : hst :=
-  let go p := {| hcur := p; htodo := htodo s; found := found s |} in
+  let go p := {| hcur := p; htodo := htodo s; found := found s; fnext := fnext s |} in
   match hcur s with
   | H_Idle => match htodo s with
               | [] => s
-              | OAdd node hash u :: rest => {| hcur := A_Size node hash u; htodo := rest; found := found s |}
-              | OLookup h rhh k :: rest => {| hcur := L_Size h rhh k; htodo := rest; found := found s |}
-              | ODelFound :: rest => {| hcur := D_Size (found s); htodo := rest; found := found s |}
+              | OAdd node hash u :: rest => {| hcur := A_Size node hash u; htodo := rest; found := found s; fnext := fnext s |}
+              | OLookup h rhh k :: rest => {| hcur := L_Size h rhh k; htodo := rest; found := found s; fnext := fnext s |}
+              | ODelFound :: rest => {| hcur := D_Size (found s); htodo := rest; found := found s; fnext := fnext s |}
+              | OReplaceFound new :: rest => {| hcur := repl_start (found s) new (fnext s); htodo := rest; found := found s; fnext := fnext s |}
               end
   | L_Size h rhh k => go (L_Bucket (bucket C (N.land h (r - 1))) rhh k)
   | L_Bucket _ rhh k => go (lookup_at (ptr r) rhh k)
@@ -121,8 +151,8 @@ Definition hnext (s : hst) (r : N) : hst :=
       if negb (is_removed r) && negb (is_bucket r) && (rh C node =? rhh) && (key C node =? k)
       then go (L_Assert node r)
       else go (lookup_at (ptr r) rhh k)
-  | L_Assert node _ => {| hcur := L_Ret node; htodo := htodo s; found := node |}
-  | L_Ret node => {| hcur := H_Idle; htodo := htodo s; found := node |}
+  | L_Assert node nx => {| hcur := L_Ret node; htodo := htodo s; found := node; fnext := nx |}
+  | L_Ret node => if node =? 0 then {| hcur := H_Idle; htodo := htodo s; found := 0; fnext := 0 |} else go H_Idle      (* a hit went through L_Assert, which filled the iterator *)
   | A_Size node hash u => go (A_Start node (bucket C (N.land hash (r - 1))) u)
   | A_Start node b u => go (add_at node b u b r)
   | A_Iter node b u prev iter =>
@@ -148,14 +178,24 @@ Definition hnext (s : hst) (r : N) : hst :=
   | D_Load2 node => go (D_Xchg node r)
   | D_Xchg node _ => go (D_Ret (if is_owner r then 2 else 0))
   | D_Ret _ => go H_Idle
+  | R_Size old new onext => go (repl_at old new onext r)
+  | R_Cas old new onext sz => if r =? onext then go (RG_Start new (bucket C (N.land (hashof C old) (sz - 1))) old) else go (repl_at old new r sz)
+  | RG_Start new b old => go (rgc_at new b old b r)
+  | RG_Iter new b old prev iter => if is_removed r then go (RG_Cas new b old prev iter r) else go (rgc_at new b old (ptr iter) r)
+  | RG_Cas new b old _ _ _ => go (RG_Start new b old)
+  | R_Assert _ => go (R_Ret 0)
+  | R_Ret _ => go H_Idle
   end.
 (* plain (un-hooked) stores folded into the step that precedes them *)
 Definition hpost (s : hst) (r : N) : list (hloc * N) :=
   match hcur s with
   | A_Cas node _ _ _ iter => if r =? iter then [(HIns node, 1)] else []      (* ghost: the insertion cmpxchg succeeded *)
+  | R_Cas _ new onext _ => if r =? onext then [(HIns new, 1)]                 (* ghost: the replacing cmpxchg succeeded *)
+                           else if is_removed r then [] else [(HNext new, r)]  (* retry: new->next = the word just read *)
   | _ =>
     match hcur (hnext s r) with
     | A_Cas node _ _ _ iter => [(HNext node, clr iter)]
+    | R_Cas _ new onext _ => [(HNext new, onext)]
     | _ => []
     end
   end.
@@ -164,4 +204,4 @@ End CFG.
 
 Definition run_h (C : cfg) (m0 : mem hloc) (threads : nat -> list hop) (cs : list choice) :=
   snd (run hloc hloc_eqb (hprog C) cs
-        {| smem := m0; sthr := fun t => {| tpc := ({| hcur := H_Idle; htodo := threads t; found := 0 |} : pst hloc (hprog C)); tbuf := [] |} |}).
+        {| smem := m0; sthr := fun t => {| tpc := ({| hcur := H_Idle; htodo := threads t; found := 0; fnext := 0 |} : pst hloc (hprog C)); tbuf := [] |} |}).
